@@ -112,6 +112,10 @@ pub struct World {
     pub stall_node: AtomicU64,
     pub stall: AtomicBool,
     pub exec_count: AtomicU64,
+    /// node whose executor first spawns a helper task that keeps a clone of its tracked engine
+    /// alive until `helper_hold` is cleared (keeps the query in computing state after it returned)
+    pub helper_node: AtomicU64,
+    pub helper_hold: AtomicBool,
 }
 pub fn trace_on() -> bool { static T: std::sync::OnceLock<bool> = std::sync::OnceLock::new(); *T.get_or_init(|| std::env::var("QV_TRACE").is_ok()) }
 pub fn node_code(n: Node) -> u64 { ((n.kind as u64) << 32) | n.idx as u64 }
@@ -120,7 +124,7 @@ impl World {
         Arc::new(World {
             prog, ext: (0..n_ext).map(|_| AtomicI64::new(0)).collect(), log: Mutex::new(Vec::new()),
             panic_node: AtomicU64::new(u64::MAX), stall_node: AtomicU64::new(u64::MAX), stall: AtomicBool::new(false),
-            exec_count: AtomicU64::new(0),
+            exec_count: AtomicU64::new(0), helper_node: AtomicU64::new(u64::MAX), helper_hold: AtomicBool::new(false),
         })
     }
     pub fn take_log(&self) -> Vec<Event> { std::mem::take(&mut *self.log.lock().unwrap()) }
@@ -190,6 +194,14 @@ async fn run_node<C: Config>(w: &World, me: Node, engine: &TrackedEngine<C>) -> 
     if w.panic_node.load(Ordering::SeqCst) == node_code(me) { panic!("executor of {} panics on request", me.short()); }
     while w.stall.load(Ordering::SeqCst) && w.stall_node.load(Ordering::SeqCst) == node_code(me) {
         tokio::task::yield_now().await;
+    }
+    if w.helper_node.load(Ordering::SeqCst) == node_code(me) {
+        let keep = engine.clone();
+        let w2: &'static World = unsafe { &*(w as *const World) };   // the World outlives the runtime in the harness
+        tokio::spawn(async move {
+            while w2.helper_hold.load(Ordering::SeqCst) { tokio::task::yield_now().await; }
+            drop(keep);
+        });
     }
     let v = if me.kind == Kind::External {
         w.ext[me.idx as usize].load(Ordering::SeqCst)
